@@ -32,6 +32,11 @@ type C17Case struct {
 	Inserts    []C17Insert `json:"inserts"`
 	Mode       app.Mode    `json:"mode"`
 	FlushOnErr bool        `json:"flush_on_err"`
+	// ReuseBuf: the caller hands every input over in one and the same buffer
+	ReuseBuf bool `json:"reuse_buf,omitempty"`
+	// HoldRefused (engine-per-request operation): the engine whose first Exec was refused
+	// for length is kept and serves the request after the next one
+	HoldRefused bool `json:"hold_refused,omitempty"`
 }
 
 var c17Modes = []app.Mode{{Kind: "long"}, {Kind: "persist", Backend: "mem"}, {Kind: "persist", Backend: "fs"}, {Kind: "long+persist", Backend: "mem"}, {Kind: "persist", Backend: "pg"}}
@@ -65,6 +70,8 @@ func genC17(t *rapid.T) C17Case {
 	c := C17Case{App: a, Inputs: toBS(GenHistory(t, a, HistOpts{MaxLen: 8, Junk: true}))}
 	c.Mode = c17Modes[uniformN(t, len(c17Modes), "mode")]
 	c.FlushOnErr = chancePct(t, 30, "flushonerr")
+	c.ReuseBuf = chancePct(t, 30, "reusebuf")
+	c.HoldRefused = c.Mode.Kind == "persist" && chancePct(t, 30, "holdrefused")
 	n := rapid.IntRange(1, 4).Draw(t, "ninserts")
 	for i := 0; i < n; i++ {
 		c.Inserts = append(c.Inserts, C17Insert{Pos: rapid.IntRange(0, len(c.Inputs)).Draw(t, "pos"), Input: BS(genRefused.Draw(t, "refused"))})
@@ -152,6 +159,7 @@ func checkC17(c C17Case) (o Outcome) {
 			st, cleanup = newStorage(c.Mode.Backend)
 		}
 		s := app.NewSession(app.NewShared(c.App), c.Mode, st)
+		s.ReuseBuf, s.HoldRefused = c.ReuseBuf, c.HoldRefused
 		return s, cleanup
 	}
 	// F-C17-1: a long-lived engine with a persister whose very first input is refused for
